@@ -396,6 +396,22 @@ fn c20_encoder_new() {
 }
 
 // ------------------------------------------------------------------ PIDWrapper
+// Tool limit that shapes this part (found by experiment): `PIDWrapper::new` puts the clock, the two
+// ConstantGetters and the CommandPID into `Rc<RefCell<..>>`.  CBMC treats a malloc'ed object of more than 64
+// bytes as ONE symbol (no field sensitivity), so as soon as one symbolic value (a gain, a command, a state) is
+// stored in such an object, the enum tags and vtable pointers stored next to it stop being constants for the
+// symbolic executor; every `Reference::borrow`, `dyn Getter` call and -- worst -- every drop of an
+// `Option<Reference<dyn Getter<..>>>` (recursive drop glue through the vtable) is then explored for all
+// variants/candidates and symbolic execution does not terminate in hours (`PIDWrapper::new` alone with symbolic
+// gains: > 15 min, unfinished).  Decomposition used instead:
+//   (1) c20_pid_new_wiring            the real `new`: the wiring W (who shares which object, who follows whom, which
+//                                     values are stored), symbolic time and state, concrete command and gains;
+//   (2) c20_pid_update_* / _matches_* the real `update` on a wrapper built by struct literal in wiring W with every
+//                                     value symbolic, the shared objects being locals behind `Reference::from_ptr`
+//                                     (field-sensitive, so everything stays tractable).  `update` is written
+//                                     against `Reference::borrow/borrow_mut` only; that those behave identically
+//                                     for the Rc and the Ptr variant is C17's contract;
+//   (3) c20_pid_real_new_then_update  glue: the real `new` followed by real `update`s on concrete data.
 /// Recording motor.  As the crate documents for implementors that want to follow a getter, its `update` calls
 /// `update_following_data`, so whatever it follows reaches `impl_set` through the real `Settable::set`.
 struct Motor {
@@ -434,12 +450,26 @@ impl Updatable<Er> for Motor {
         self.update_result
     }
 }
-/// Two Rc-backed References (possibly of different static types after to_dyn!) are handles to one allocation.
-fn same_rc<A: ?Sized, B: ?Sized>(a: &Reference<A>, b: &Reference<B>) -> bool {
-    match (a.clone().into_inner(), b.clone().into_inner()) {
-        (ReferenceUnsafe::RcRefCell(x), ReferenceUnsafe::RcRefCell(y)) => {
-            Rc::as_ptr(&x) as *const () == Rc::as_ptr(&y) as *const ()
+type SG = ConstantGetter<State, Time, Er>;
+type CG = ConstantGetter<Command, Time, Er>;
+type Pid = CommandPID<SG, Er>;
+
+/// Address of the object a Reference denotes (Rc allocation or raw pointee), type-erased; None for lock variants.
+fn target<A: ?Sized>(a: &Reference<A>) -> Option<*const ()> {
+    match a.clone().into_inner() {
+        ReferenceUnsafe::RcRefCell(x) => {
+            let p = Rc::as_ptr(&x) as *const ();
+            core::mem::forget(x); // keep the count: dropping an Rc<RefCell<dyn ..>> drags in recursive drop glue
+            unsafe { Rc::decrement_strong_count(p as *const RefCell<u8>) };
+            Some(p)
         }
+        ReferenceUnsafe::Ptr(p) => Some(p as *const ()),
+        _ => None,
+    }
+}
+fn same_target<A: ?Sized, B: ?Sized>(a: &Reference<A>, b: &Reference<B>) -> bool {
+    match (target(a), target(b)) {
+        (Some(x), Some(y)) => x == y,
         _ => false,
     }
 }
@@ -450,9 +480,17 @@ fn of32_eq(a: &Option<f32>, b: &Option<f32>) -> bool {
         _ => false,
     }
 }
+fn odf_eq(a: &Option<Datum<f32>>, b: &Option<Datum<f32>>) -> bool {
+    match (a, b) {
+        (None, None) => true,
+        (Some(x), Some(y)) => x.time.0 == y.time.0 && feq(x.value, y.value),
+        _ => false,
+    }
+}
 /// Present value of a CommandPID output (errors cannot arise from a ConstantGetter over a Time clock).
-fn pid_now<G: Getter<State, Er> + ?Sized>(pid: &CommandPID<G, Er>) -> Option<Datum<f32>> {
-    match pid.get() {
+fn pid_now(pid: &Reference<Pid>) -> Option<Datum<f32>> {
+    let got: Output<f32, Er> = pid.borrow().get();
+    match got {
         Ok(v) => v,
         Err(_) => {
             assert!(false);
@@ -460,21 +498,42 @@ fn pid_now<G: Getter<State, Er> + ?Sized>(pid: &CommandPID<G, Er>) -> Option<Dat
         }
     }
 }
+/// The wiring W that `PIDWrapper::new` establishes (and that c20_pid_new_wiring proves it establishes).
+fn wiring_ok<T: Settable<f32, Er>>(w: &PIDWrapper<'_, T, Er>) -> bool {
+    same_target(&w.state.borrow().time_getter, &w.time)
+        && same_target(&w.command.borrow().time_getter, &w.time)
+        && match &w.pid.borrow().get_settable_data_ref().following {
+            Some(f) => same_target(f, &w.command),
+            None => false,
+        }
+        && match &w.inner.get_settable_data_ref().following {
+            Some(f) => same_target(f, &w.pid),
+            None => false,
+        }
+        && w.state.borrow().get_settable_data_ref().following.is_none()
+        && w.command.borrow().get_settable_data_ref().following.is_none()
+}
 
-//@ob fn="PIDWrapper::new" at=src/devices/wrappers.rs:98 clause="wiring after new, all arguments symbolic: shared clock holds initial_time; state and command ConstantGetters hold the initial values and read that same clock; the CommandPID follows the command getter (same allocation, through to_dyn!); the inner motor follows the CommandPID; the PID is fresh (no output), the terminal is fresh, the motor has not been set or updated"
+//@ob fn="PIDWrapper::new" at=src/devices/wrappers.rs:98 bounded="initial_command and k-values concrete (CBMC: no field sensitivity in heap objects > 64 bytes); initial_time, initial_state symbolic" clause="wiring W after the real new: shared clock holds initial_time; state and command ConstantGetters hold the initial values and read that same clock (same allocation); the CommandPID follows the command getter and the inner motor follows the CommandPID (same allocations, through to_dyn!); the getters follow nothing; the PID is fresh (no output), the terminal is fresh, the motor has not been set or updated.  new is straight-line and never inspects its value arguments (they are only moved)"
 #[kani::proof]
 #[kani::unwind(3)]
 fn c20_pid_new_wiring() {
     let t0: Time = kani::any();
     let s0: State = kani::any();
-    let c0: Command = kani::any();
-    let k: PositionDerivativeDependentPIDKValues = kani::any();
+    let c0 = Command::new(PositionDerivative::Velocity, 2.5);
+    let k = PositionDerivativeDependentPIDKValues::new(
+        PIDKValues::new(1.0, 0.01, 0.1),
+        PIDKValues::new(2.0, 0.02, 0.2),
+        PIDKValues::new(3.0, 0.03, 0.3),
+    );
     let w = PIDWrapper::new(Motor::any(), t0, s0, c0, k);
     assert!(*w.time.borrow() == t0);
     assert!(state_bits_eq(w.state.borrow().value, s0));
     assert!(command_bits_eq(w.command.borrow().value, c0));
-    assert!(same_rc(&w.state.borrow().time_getter, &w.time));
-    assert!(same_rc(&w.command.borrow().time_getter, &w.time));
+    assert!(matches!(target(&w.time), Some(_)));
+    assert!(wiring_ok(&w));
+    // three distinct shared objects besides the clock
+    assert!(!same_target(&w.state, &w.command) && !same_target(&w.pid, &w.command) && !same_target(&w.pid, &w.state));
     match w.state.borrow().get() {
         Ok(Some(d)) => assert!(d.time == t0 && state_bits_eq(d.value, s0)),
         _ => assert!(false),
@@ -483,101 +542,265 @@ fn c20_pid_new_wiring() {
         Ok(Some(d)) => assert!(d.time == t0 && command_bits_eq(d.value, c0)),
         _ => assert!(false),
     }
-    match &w.pid.borrow().get_settable_data_ref().following {
-        Some(f) => assert!(same_rc(f, &w.command)),
-        None => assert!(false),
-    }
-    match &w.inner.sd.following {
-        Some(f) => assert!(same_rc(f, &w.pid)),
-        None => assert!(false),
-    }
-    assert!(w.state.borrow().get_settable_data_ref().following.is_none());
-    assert!(w.command.borrow().get_settable_data_ref().following.is_none());
-    assert!(pid_now(&*w.pid.borrow()).is_none());
+    assert!(pid_now(&w.pid).is_none());
+    let lr: Option<Command> = w.pid.borrow().get_last_request();
+    assert!(lr.is_none());
     let s = snap(&w.terminal.borrow());
     assert!(s.state.is_none() && s.command.is_none() && s.other.is_null() && !s.follows_state && !s.follows_command);
     assert!(w.inner.n_set == 0 && w.inner.n_update == 0);
     assert!(w.get_terminal() as *const RefCell<Terminal<'_, Er>> == &w.terminal as *const RefCell<Terminal<'_, Er>>);
     reach!();
+    core::mem::forget(w); // the destructor is not part of the property (recursive drop glue through dyn vtables)
 }
 
-//@ob fn="<PIDWrapper<T,E> as Updatable<E>>::update" at=src/devices/wrappers.rs:144 clause="one step after new (clock, state, command, gains, terminal slots, optional partner, motor outcomes all symbolic): with terminal data the shared clock becomes its time, the state/command getters take the present fields and keep the absent ones, the PID is updated (it took the command in, its output carries the new time) and THEN the motor: the motor receives exactly (bit-equal) the PID's present output, nothing when the PID has none; without terminal data clock/getters/PID are untouched and only the motor is updated; motor errors are returned"
+/// A PIDWrapper in wiring W whose shared objects are locals of the harness behind Ptr References; the CommandPID
+/// is the real one, freshly constructed by its public constructor exactly as `new` does.
+macro_rules! pid_rig {
+    ($w:ident, $t0:expr, $s0:expr, $c0:expr, $k:expr, $motor:expr) => {
+        let mut clock: Time = $t0;
+        let time = rf(&mut clock);
+        let mut sg: SG = ConstantGetter::new(time.clone(), $s0);
+        let state = rf(&mut sg);
+        let mut cg: CG = ConstantGetter::new(time.clone(), $c0);
+        let command = rf(&mut cg);
+        let mut pid_obj: Pid = CommandPID::new(state.clone(), $c0, $k);
+        let pid = rf(&mut pid_obj);
+        pid.borrow_mut().follow(to_dyn!(Getter<Command, Er>, command.clone()));
+        let mut motor: Motor = $motor;
+        motor.follow(to_dyn!(Getter<f32, Er>, pid.clone()));
+        let mut $w = PIDWrapper {
+            terminal: RefCell::new(any_slots_terminal()),
+            time: time,
+            state: state,
+            command: command,
+            pid: pid,
+            inner: motor,
+        };
+        assert!(wiring_ok(&$w));
+    };
+}
+/// What the wrapper's shared objects hold.
+struct Held {
+    time: Time,
+    state: State,
+    command: Command,
+    pid_request: Option<Command>,
+    out: Option<Datum<f32>>,
+    n_set: u32,
+    n_update: u32,
+}
+fn held(w: &PIDWrapper<'_, Motor, Er>) -> Held {
+    Held {
+        time: *w.time.borrow(),
+        state: w.state.borrow().value,
+        command: w.command.borrow().value,
+        pid_request: w.pid.borrow().get_last_request(),
+        out: pid_now(&w.pid),
+        n_set: w.inner.n_set,
+        n_update: w.inner.n_update,
+    }
+}
+/// SPEC of one PIDWrapper::update round, from what the terminal sees (`want`) and the pre-round contents.
+fn pid_round_post(pre: &Held, want: &Option<TerminalData>, w: &PIDWrapper<'_, Motor, Er>, res: &NothingOrError<Er>) {
+    let post = held(w);
+    assert!(post.n_update == pre.n_update + 1);
+    match want {
+        Some(td) => {
+            assert!(post.time == td.time);
+            let s_now = match td.state {
+                Some(s) => s,
+                None => pre.state,
+            };
+            let c_now = match td.command {
+                Some(c) => c,
+                None => pre.command,
+            };
+            assert!(state_bits_eq(post.state, s_now));
+            assert!(command_bits_eq(post.command, c_now));
+            // the PID was updated AFTER the getters were set: it has taken that command in through `follow`,
+            assert!(oc_eq(&post.pid_request, &Some(c_now)));
+            // and any output it has now was computed in this round: it is stamped with this round's time
+            if let Some(d) = post.out {
+                assert!(d.time == td.time);
+            }
+        }
+        None => {
+            // nothing seen: clock, getters and PID are untouched
+            assert!(post.time == pre.time);
+            assert!(state_bits_eq(post.state, pre.state));
+            assert!(command_bits_eq(post.command, pre.command));
+            assert!(oc_eq(&post.pid_request, &pre.pid_request));
+            assert!(odf_eq(&post.out, &pre.out));
+        }
+    }
+    // the motor is updated after the PID: it receives exactly the PID's present output, nothing if there is none
+    match post.out {
+        Some(d) => {
+            assert!(post.n_set == pre.n_set + 1);
+            assert!(of32_eq(&w.inner.got, &Some(d.value)));
+            match w.inner.set_result {
+                Err(_) => assert!(res_eq(res, &w.inner.set_result)),
+                Ok(()) => assert!(res_eq(res, &w.inner.update_result)),
+            }
+        }
+        None => {
+            assert!(post.n_set == pre.n_set);
+            assert!(res_eq(res, &w.inner.update_result));
+        }
+    }
+}
+fn fresh_terminal_data(w: &PIDWrapper<'_, Motor, Er>) {
+    let mut t = w.terminal.borrow_mut();
+    t.settable_data_state.last_request = kani::any();
+    t.settable_data_command.last_request = kani::any();
+}
+/// A7: `CommandPID::update` subtracts consecutive timestamps; keep them where the i64 difference cannot overflow.
+fn time_in_range(td: &Option<TerminalData>) {
+    if let Some(td) = td {
+        kani::assume(td.time.0 > -(1i64 << 61) && td.time.0 < (1i64 << 61));
+    }
+}
+
+//@ob fn="<PIDWrapper<T,E> as Updatable<E>>::update" at=src/devices/wrappers.rs:144 clause="first round on a wrapper in wiring W with a fresh CommandPID; clock, state, command, gains, terminal slots, optional partner terminal, motor outcomes all symbolic: with terminal data the shared clock becomes its time, the state/command getters take the present fields and keep the absent ones, the PID is updated after that (it took the command in; a fresh PID has an output after one update exactly for a position command, stamped with the new time) and THEN the motor, which receives exactly (bit-equal) the PID's present output, nothing if there is none; without terminal data clock/getters/PID are untouched and only the motor is updated; motor errors are returned; terminal and partner untouched"
 #[kani::proof]
-#[kani::unwind(3)]
-fn c20_pid_update_wiring() {
+fn c20_pid_update_first_round() {
     let t0: Time = kani::any();
     let s0: State = kani::any();
     let c0: Command = kani::any();
     let k: PositionDerivativeDependentPIDKValues = kani::any();
-    let mut w = PIDWrapper::new(Motor::any(), t0, s0, c0, k);
-    {
-        let mut t = w.terminal.borrow_mut();
-        t.settable_data_state.last_request = kani::any();
-        t.settable_data_command.last_request = kani::any();
-    }
+    pid_rig!(w, t0, s0, c0, k, Motor::any());
     let partner: RefCell<Terminal<'_, Er>> = RefCell::new(any_slots_terminal());
     let connected: bool = kani::any();
     if connected {
         connect(w.get_terminal(), &partner);
     }
     let want = sees(&w.terminal);
-    let pre = snap(&w.terminal.borrow());
+    let tpre = snap(&w.terminal.borrow());
+    let ppre = snap(&partner.borrow());
+    let pre = held(&w);
+    assert!(pre.out.is_none() && pre.pid_request.is_none());
     let res = w.update();
-    assert!(snap_eq(&snap(&w.terminal.borrow()), &pre));
-    assert!(w.inner.n_update == 1);
-    let out = pid_now(&*w.pid.borrow());
-    match &want {
-        Some(td) => {
-            assert!(*w.time.borrow() == td.time);
-            let s_now = match td.state {
-                Some(s) => s,
-                None => s0,
-            };
-            let c_now = match td.command {
-                Some(c) => c,
-                None => c0,
-            };
-            assert!(state_bits_eq(w.state.borrow().value, s_now));
-            assert!(command_bits_eq(w.command.borrow().value, c_now));
-            // the PID was updated after the getters were set: it has taken the command in through `follow` ...
-            let lr: Option<Command> = w.pid.borrow().get_last_request();
-            assert!(oc_eq(&lr, &Some(c_now)));
-            // ... and a fresh CommandPID has an output after one update exactly for a position command (C11),
-            // stamped with the time the state getter reports, i.e. the shared clock
-            match PositionDerivative::from(c_now) {
-                PositionDerivative::Position => match out {
-                    Some(d) => assert!(d.time == td.time),
-                    None => assert!(false),
-                },
-                _ => assert!(out.is_none()),
-            }
-        }
-        None => {
-            assert!(*w.time.borrow() == t0);
-            assert!(state_bits_eq(w.state.borrow().value, s0));
-            assert!(command_bits_eq(w.command.borrow().value, c0));
-            let lr: Option<Command> = w.pid.borrow().get_last_request();
-            assert!(lr.is_none());
-            assert!(out.is_none());
+    pid_round_post(&pre, &want, &w, &res);
+    assert!(snap_eq(&snap(&w.terminal.borrow()), &tpre));
+    assert!(snap_eq(&snap(&partner.borrow()), &ppre));
+    if let Some(td) = &want {
+        let c_now = match td.command {
+            Some(c) => c,
+            None => c0,
+        };
+        let out = pid_now(&w.pid);
+        match PositionDerivative::from(c_now) {
+            PositionDerivative::Position => assert!(out.is_some()),
+            _ => assert!(out.is_none()),
         }
     }
-    // what the motor received
-    match out {
-        Some(d) => {
-            assert!(w.inner.n_set == 1);
-            assert!(of32_eq(&w.inner.got, &Some(d.value)));
-            match w.inner.set_result {
-                Err(_) => assert!(res_eq(&res, &w.inner.set_result)),
-                Ok(()) => assert!(res_eq(&res, &w.inner.update_result)),
-            }
-        }
-        None => {
-            assert!(w.inner.n_set == 0);
-            assert!(res_eq(&res, &w.inner.update_result));
-        }
-    }
-    kani::cover!(want.is_some() && out.is_some() && res.is_ok(), "motor driven");
+    assert!(wiring_ok(&w));
+    kani::cover!(want.is_some() && w.inner.n_set == 1 && res.is_ok(), "motor driven");
     kani::cover!(want.is_none(), "no terminal data");
     kani::cover!(connected && want.is_some(), "data through partner");
+    kani::cover!(w.inner.n_set == 1 && res.is_err(), "motor rejects");
     reach!();
 }
+
+//@ob fn="<PIDWrapper<T,E> as Updatable<E>>::update" at=src/devices/wrappers.rs:144 bounded="CommandPID pre-state = any state reachable in two rounds from fresh (its fields are private to streams::control::command_pid)" clause="third round after two arbitrary rounds (each: arbitrary terminal slots, possibly none), i.e. with the PID holding an arbitrary two-round history incl. integrated outputs: same one-round contract (clock, getters, PID updated then motor; motor receives the PID's present output bit-equal, stale output re-sent when nothing is seen); timestamps within +-2^61 (A7)"
+#[kani::proof]
+fn c20_pid_update_third_round() {
+    let t0: Time = kani::any();
+    let s0: State = kani::any();
+    let c0: Command = kani::any();
+    let k: PositionDerivativeDependentPIDKValues = kani::any();
+    pid_rig!(w, t0, s0, c0, k, Motor::accepting());
+    fresh_terminal_data(&w);
+    time_in_range(&sees(&w.terminal));
+    let r1 = w.update();
+    fresh_terminal_data(&w);
+    time_in_range(&sees(&w.terminal));
+    let r2 = w.update();
+    assert!(r1.is_ok() && r2.is_ok());
+    w.inner.set_result = any_result();
+    w.inner.update_result = any_result();
+    fresh_terminal_data(&w);
+    let want = sees(&w.terminal);
+    time_in_range(&want);
+    let pre = held(&w);
+    let res = w.update();
+    pid_round_post(&pre, &want, &w, &res);
+    assert!(wiring_ok(&w));
+    kani::cover!(want.is_some() && pre.out.is_some() && w.inner.n_set == pre.n_set + 1, "driven in round 3");
+    kani::cover!(want.is_none() && pre.out.is_some() && w.inner.n_set == pre.n_set + 1, "stale output re-sent");
+    kani::cover!(matches!(PositionDerivative::from(w.command.borrow().value), PositionDerivative::Acceleration) && pid_now(&w.pid).is_some(), "acceleration command output after three rounds");
+    reach!();
+}
+
+// ---- relational clause: the motor gets what a stand-alone CommandPID produces on the same data
+/// Deterministic uninterpreted stand-in for the gain formula kp*e + ki*i + kd*d (its own contract: C04/C11).
+/// Injective-style mix of the gains and the three arguments, so a wrapper that passed other gains, another
+/// command or another state to its PID would produce a different token.
+fn stub_pidk_evaluate(k: &PIDKValues, e: f32, i: f32, d: f32) -> f32 {
+    f32::from_bits(mix(
+        0x51ED_270B,
+        mix(1, k.kp.to_bits(), e.to_bits()),
+        mix(2, mix(3, k.ki.to_bits(), i.to_bits()), mix(4, k.kd.to_bits(), d.to_bits())),
+    ))
+}
+/// The reference composition the property names: a stand-alone CommandPID over its own clock and getters, fed
+/// the times, states and commands seen at the terminal (updated exactly when the terminal sees something).
+fn standalone_feed(time: &Reference<Time>, state: &Reference<SG>, command: &Reference<CG>, pid: &Reference<Pid>, td: &Option<TerminalData>) {
+    if let Some(td) = td {
+        *time.borrow_mut() = td.time;
+        if let Some(s) = td.state {
+            let _ = state.borrow_mut().set(s);
+        }
+        if let Some(c) = td.command {
+            let _ = command.borrow_mut().set(c);
+        }
+        let r = pid.borrow_mut().update();
+        assert!(r.is_ok());
+    }
+}
+macro_rules! relational_rounds {
+    ($name:ident, $rounds:expr) => {
+        #[kani::proof]
+        #[kani::stub(PIDKValues::evaluate, stub_pidk_evaluate)]
+        fn $name() {
+            let t0: Time = kani::any();
+            let s0: State = kani::any();
+            let c0: Command = kani::any();
+            let k: PositionDerivativeDependentPIDKValues = kani::any();
+            pid_rig!(w, t0, s0, c0, k, Motor::accepting());
+            // stand-alone twin
+            let mut clock2: Time = t0;
+            let time2 = rf(&mut clock2);
+            let mut sg2: SG = ConstantGetter::new(time2.clone(), s0);
+            let state2 = rf(&mut sg2);
+            let mut cg2: CG = ConstantGetter::new(time2.clone(), c0);
+            let command2 = rf(&mut cg2);
+            let mut pid2_obj: Pid = CommandPID::new(state2.clone(), c0, k);
+            let pid2 = rf(&mut pid2_obj);
+            pid2.borrow_mut().follow(to_dyn!(Getter<Command, Er>, command2.clone()));
+            let mut round = 0;
+            while round < $rounds {
+                fresh_terminal_data(&w);
+                let want = sees(&w.terminal);
+                time_in_range(&want);
+                let n0 = w.inner.n_set;
+                let res = w.update();
+                assert!(res.is_ok());
+                standalone_feed(&time2, &state2, &command2, &pid2, &want);
+                match pid_now(&pid2) {
+                    Some(d) => {
+                        assert!(w.inner.n_set == n0 + 1);
+                        assert!(of32_eq(&w.inner.got, &Some(d.value)));
+                    }
+                    None => assert!(w.inner.n_set == n0),
+                }
+                assert!(odf_eq(&pid_now(&w.pid), &pid_now(&pid2)));
+                round += 1;
+            }
+            kani::cover!(w.inner.n_set >= 1, "motor driven");
+            reach!();
+        }
+    };
+}
+//@ob fn="<PIDWrapper<T,E> as Updatable<E>>::update (relational)" at=src/devices/wrappers.rs:144 bounded="1 round from fresh; gain formula PIDKValues::evaluate replaced by a deterministic uninterpreted mix (kani::stub)" clause="the value the motor receives equals, bit for bit, the output of a stand-alone CommandPID (same gains, initial command, initial state/time) fed the same time/state/command seen at the terminal; nothing is sent when the stand-alone PID has no output"
+relational_rounds!(c20_pid_matches_standalone_1_round, 1);
